@@ -2,6 +2,7 @@ import TpmVerif.Base.Trace
 import TpmVerif.Model.Session
 import TpmVerif.Model.Context
 import TpmVerif.Model.ObjCtx
+import TpmVerif.Crypto.Sha
 /-! Correspondence checker for C11 traces (session accounting). -/
 namespace TpmVerif.Check.C11
 open TpmVerif TpmVerif.Model.Session
@@ -47,7 +48,7 @@ def stepObj (c : CS) (l : Line) : CS :=
       let h := hierOf (l.nat "hier"); let stc : Bool := l.nat "stclear" == 1
       let c := branch c s!"obj/save/hier={l.nat "hier"}/stclear={stc}/enabled={c.now.enabled h}"
       -- the saved handle tells the kind of object: 0x80000002 for an stClear object, 0x80000000 otherwise
-      let c := if l.nat "saved_h" ≠ (if stc then 0x80000002 else 0x80000000) then mism c s!"SPEC[context-saved-handle] savedHandle {l.nat "saved_h"} of an object with stClear={stc}" else c
+      let c := if l.nat "saved_h" ≠ (if l.nat "seq" = 1 then 0x80000001 else if stc then 0x80000002 else 0x80000000) then mism c s!"SPEC[context-saved-handle] savedHandle {l.nat "saved_h"} of an object with stClear={stc}" else c
       { c with octx := (l.nat "id", TpmVerif.Model.ObjCtx.save c.now h stc) :: c.octx }
   | "event" =>
       if l.nat "rc" ≠ 0 then branch c s!"obj/event-refused/{l.str "kind"}" else
@@ -68,6 +69,12 @@ def stepObj (c : CS) (l : Line) : CS :=
         | .ok =>
           if rc = 0x902 then c else    -- no free object slot: not judged
           if rc ≠ 0 then mism c s!"SPEC[context-refused] an intact object context (hierarchy enabled, no reset, proof unchanged) was refused rc={rc}" else
+          if l.nat "seq" = 1 then
+            -- a hash sequence: completing the loaded one gives the hash of everything absorbed before and after the save
+            (if l.nat "complete_rc" ≠ 0 then mism c s!"SPEC[context-restores-different] the loaded hash sequence cannot be completed rc={l.nat "complete_rc"}"
+             else if l.bytes "digest" ≠ TpmVerif.Crypto.hash TpmVerif.Crypto.sha256 (l.bytes "part1" ++ l.bytes "part2") then
+               mism c "SPEC[context-restores-different] the loaded hash sequence completes to another digest than SHA-256 of the data absorbed before and after the save"
+             else branch c "obj/load/sequence-continues") else
           let c := if l.nat "same_name" ≠ 1 then mism c "SPEC[context-restores-different] the loaded object has a different Name than the saved one" else c
           if l.nat "same_mac" ≠ 1 then mism c "SPEC[context-restores-different] the loaded key computes a different HMAC than the saved one" else c
         | .integrity =>
